@@ -782,6 +782,24 @@ class SamplingMethod(DirectMethod):
     def get_signals_at(self, stage, k=-1):
         return veccat(*[e.sampled[k] for e in self.signals.values()])
 
+    def pack_p_sys(self, stage, pv, signals):
+        """Stack parameters/variables (pv) and sampled B-spline signals (rows in order of registration)
+        in the layout of the system functions' p input, vertcat(stage.p, stage.v):
+        B-spline parameters come right after the other parameters, B-spline variables after the other variables.
+        """
+        n_p = sum(p.numel() for grid in ['', 'control', 'control+'] for p in stage.parameters[grid])
+        rows_p = []
+        rows_v = []
+        offset = 0
+        for e in self.signals.values():
+            n = e.coeff.shape[0]
+            (rows_p if e.parametric else rows_v).extend(range(offset, offset+n))
+            offset += n
+        if not rows_p:
+            # Already in place
+            return vertcat(pv, signals)
+        return vertcat(pv[:n_p,:], signals[rows_p,:], pv[n_p:,:], signals[rows_v,:])
+
     def get_p_sys(self, stage, k, include_signals=True):
         args = [vvcat(self.P),
                 self.get_p_control_at(stage, k),
@@ -789,7 +807,7 @@ class SamplingMethod(DirectMethod):
                 self.V, self.get_v_control_at(stage, k),
                 self.get_v_control_plus_at(stage, k)]
         if include_signals:
-            args.append(self.get_signals_at(stage, k))
+            return self.pack_p_sys(stage, vcat(args), self.get_signals_at(stage, k))
         return vcat(args)
 
     def eval(self, stage, expr):
